@@ -2,6 +2,7 @@ package h2x
 
 import (
 	"fmt"
+	"strings"
 
 	"verifharness/hx"
 )
@@ -19,8 +20,10 @@ type genState struct {
 	big        bool
 	noOpenPush bool
 	lockstep   bool
-	queue      []string // labels that must come next
-	unacked    [2]int   // SETTINGS frames sent by each side and not yet acknowledged by the other
+	queue      []string  // labels that must come next
+	unacked    [2]int    // SETTINGS frames sent by each side and not yet acknowledged by the other
+	pendTab    [2][]bool // per SETTINGS frame a side has received and not acknowledged: carries HEADER_TABLE_SIZE
+	changed    [2]bool   // the side's encoder changed its table size since its last complete block
 }
 
 func (g *genState) pick(xs ...int) int { return xs[g.r.Intn(len(xs))] }
@@ -28,6 +31,9 @@ func (g *genState) pick(xs ...int) int { return xs[g.r.Intn(len(xs))] }
 func (g *genState) sid() int {
 	if len(g.streams) == 0 || (len(g.streams) < 4 && g.r.Chance(1, 4)) {
 		s := g.nextSid
+		if g.r.Chance(1, 30) {
+			s = 2147483645 // largest client-initiated id below the harness's fence stream
+		}
 		g.nextSid += 2
 		g.streams = append(g.streams, s)
 		return s
@@ -70,11 +76,33 @@ func (g *genState) note(l string) string {
 	switch l[0] {
 	case 'S':
 		g.unacked[y]++
+		g.pendTab[1-y] = append(g.pendTab[1-y], strings.Contains(l, ":1=") || strings.Contains(l, ",1="))
 	case 'A':
 		if g.unacked[1-y] == 0 {
 			return fmt.Sprintf("G%s:1:%s", sides[y], hx.Hex(g.r.Bytes(8)))
 		}
+		if g.pendTab[y][0] && g.changed[y] && !g.open[y] {
+			// a second table size change before the next block makes the sender emit two leading size
+			// updates, which the pinned hpack decoder in the relay refuses (known finding C08-K5):
+			// send a block first
+			g.queue = append([]string{l}, g.queue...)
+			g.changed[y] = false
+			return fmt.Sprintf("H%s:%d:0:1:-:-:0:0", sides[y], g.sid())
+		}
 		g.unacked[1-y]--
+		if g.pendTab[y][0] {
+			g.changed[y] = true
+		}
+		g.pendTab[y] = g.pendTab[y][1:]
+	case 'H', 'U', 'C':
+		f := strings.Split(l, ":")
+		eh := f[3]
+		if l[0] != 'H' {
+			eh = f[2]
+		}
+		if eh == "1" {
+			g.changed[y] = false
+		}
 	}
 	return l
 }
@@ -186,7 +214,8 @@ func (g *genState) label0() string {
 		case 2:
 			return fmt.Sprintf("S%s:3=100,5=%d,4=%d", Y, g.pick(16384, 20000, 32768), g.pick(0, 1, 10, 100, 65535, 70000))
 		case 3:
-			return fmt.Sprintf("S%s:2=0,6=4096", Y)
+			// ENABLE_PUSH, MAX_HEADER_LIST_SIZE, ENABLE_CONNECT_PROTOCOL, unknown identifiers, a repeated identifier
+			return fmt.Sprintf("S%s:2=%d,6=4096,8=1,%d=%d,6=%d", Y, g.r.Intn(2), g.pick(16, 255, 61440, 65535), g.pick(0, 7, 4294967295), g.pick(0, 100000))
 		default:
 			return fmt.Sprintf("S%s:4=%d", Y, g.pick(0, 0, 1, 2, 10, 31, 100, 1000, 16384, 65535, 100000, 2147483647))
 		}
